@@ -802,7 +802,7 @@ int main(int argc, char **argv) {
             std::vector<Op> ops = *rc::gen::container<std::vector<Op>>((size_t) n, gen_op());
             { Op first; first.code = OP_CREATE_BLOCK; first.a = {0, 0, 0}; ops.insert(ops.begin(), first); }   // every history starts with a block to work in
             CaseFile c; c.set("ops", ser_ops(ops)); c.seti("ncifs", *g::range(1, 2));
-            begin_case(c);
+            VH_BEGIN(c);
             if (ops.size() <= 8) { std::string s; for (auto &o : ops) { s += OP_NAME[o.code]; s += "("; for (size_t i = 0; i < o.a.size() && i < 5; i++) s += std::to_string(o.a[i]) + (i + 1 < o.a.size() ? "," : ""); s += ") "; } sample(s); }
             std::string m = run_case(c);
             if (!m.empty()) { record_fail(c, m); RC_FAIL(m); }
